@@ -35,6 +35,21 @@ pub struct MapSpec {
   pub debug_id: Option<String>,
 }
 
+thread_local! {
+  static SHARE_MAP_BUFFERS: std::cell::Cell<bool> = const { std::cell::Cell::new(false) };
+  #[allow(clippy::type_complexity)]
+  static MAP_POOL: std::cell::RefCell<std::collections::HashMap<(String, Vec<String>, Option<Vec<String>>, Vec<String>), SourceMap>> = std::cell::RefCell::new(Default::default());
+}
+
+/// Runs `f` with source maps of equal mappings/sources/contents/names built as clones of one base
+/// map (shared buffers), differing only through the setters.
+pub fn with_shared_map_buffers<R>(f: impl FnOnce() -> R) -> R {
+  let old = SHARE_MAP_BUFFERS.with(|c| c.replace(true));
+  let r = f();
+  SHARE_MAP_BUFFERS.with(|c| c.set(old));
+  r
+}
+
 impl MapSpec {
   pub fn new(segs: Vec<Seg>, sources: &[&str], contents: Option<&[&str]>, names: &[&str]) -> Self {
     MapSpec {
@@ -55,6 +70,22 @@ impl MapSpec {
     }
   }
   pub fn to_source_map(&self) -> SourceMap {
+    if SHARE_MAP_BUFFERS.with(|c| c.get()) {
+      // the way a bundler stamps a loader's map: clone one base map (the Arc buffers stay shared
+      // between all maps made from it) and set file / sourceRoot / debugId on the clone
+      let key = (self.mappings(), self.sources.clone(), self.contents.clone(), self.names.clone());
+      let mut m = MAP_POOL.with(|p| {
+        let mut p = p.borrow_mut();
+        if p.len() > 256 {
+          p.clear();
+        }
+        p.entry(key).or_insert_with(|| SourceMap::new(self.mappings(), self.sources.clone(), self.contents.clone().unwrap_or_default(), self.names.clone())).clone()
+      });
+      m.set_source_root(self.root.clone());
+      m.set_file(self.file.clone());
+      m.set_debug_id(self.debug_id.clone());
+      return m;
+    }
     let mut m = SourceMap::new(
       self.mappings(),
       self.sources.clone(),
